@@ -5,7 +5,7 @@ import ast
 import json
 import os
 
-from ..loader import AnalysisError, call_attr, call_name, dotted, unparse
+from ..loader import AnalysisError, call_attr, call_name, dotted, unparse, walk_own
 from ..prototab import ProtoTable, elem_schema, field_names, find_field, sig
 from ..rulekit import arg_of, const_value, def_value, is_none_test, local_defs, holds_at
 from ..symeval import Const, Field, ListV, StructV, SymEval, Tup, Unk, deps_of
@@ -485,6 +485,41 @@ def rule_nested(ctx):
     ctx.rep.extra["nested_elements_checked"] = n
 
 
+
+def rule_conn_published_ready(ctx):
+    R = "select"
+    # a request is prepared against conn._versions; senders find connections in client._conns without taking a lock: a connection may
+    # therefore be put there only once its handshake (ApiVersions, SASL) has finished, i.e. as the result of `await create_conn(...)`
+    # (or after `await conn.connect()`), never before
+    n = 0
+    for q, fi in sorted(ctx.repo.funcs.items()):
+        if not q.startswith("aiokafka.client.AIOKafkaClient."):
+            continue
+        c = None
+        for st in walk_own(fi.node):
+            if not (isinstance(st, ast.Assign) and any(isinstance(t_, ast.Subscript) and unparse(t_.value) == "self._conns" for t_ in st.targets)):
+                continue
+            n += 1
+            c = c or ctx.cfg(fi)
+            v = st.value
+            ok = isinstance(v, ast.Await) and isinstance(v.value, ast.Call) and call_name(v.value) == "create_conn"
+            if not ok and isinstance(v, ast.Name):
+                node = [x for x in c.nodes if x.kind == "store" and x.stmt is st]
+                ds = local_defs(c, v.id)
+                for d in ds:
+                    dv = def_value(d)
+                    if isinstance(dv, ast.Await) and isinstance(dv.value, ast.Call) and call_name(dv.value) == "create_conn":
+                        ok = True
+                if not ok and node:
+                    conn_aw = [x for x in c.nodes if x.kind == "await" and isinstance(x.ast, ast.Await) and isinstance(x.ast.value, ast.Call)
+                               and call_attr(x.ast.value) == "connect" and unparse(x.ast.value.func.value) == v.id]
+                    ok = any(c.dominates(a, node[0]) for a in conn_aw)
+            ctx.ob(R, fi, st, ok, f"`{unparse(st)[:60]}` makes a connection visible to concurrent senders before its handshake has finished: "
+                                  "their requests are prepared against an empty version table (spurious IncompatibleBrokerVersion, or the lowest version for lenient APIs) "
+                                  "and, with SASL, are written into the authentication exchange", text="conn-visible-after-handshake")
+    ctx.anchor(n >= 2, f"stores into client._conns: {n} < 2")
+
+
 def rule_evolution(ctx):
     R = "evolution"
     ctx.rep.rule(R, "between consecutive versions of one message a field that keeps its name keeps its wire type (String/Bytes/Array may become "
@@ -689,6 +724,7 @@ def run(ctx):
                        "signatures against a reference table, and self-agreement of the primitive codecs.")
     rule_pairing(ctx)
     rule_select(ctx)
+    rule_conn_published_ready(ctx)
     rule_builders(ctx)
     rule_nested(ctx)
     rule_evolution(ctx)
